@@ -5,10 +5,12 @@ C11 — towards the invariant `C11_one_socket_per_source_partial` assumes.
 very source") is what makes a fresh id differ from all ids in use.  Here: the allocating half of
 `onaccept_udp` — `udp_by_src` lookup / `next_channel` + `mux.channels[chan] = …`, then
 `udp_by_src[srcip] = chan, timeout` — preserves it, for a new source and for a known one alike.
-(Still missing for the invariant of every step: the `expire_connections` half, which needs the ids
-of the DNS table to be kept apart as well.)  Core Lean only.
+The `expire_connections` half preserves it too (`C11_tables_in_chans_after_expire`), given that DNS ids
+carry DNS callbacks (`DnsInChans`) and `udp_by_src` has one entry per source (`SrcUnique`); that these
+two are themselves invariants of every step is not yet proved.  Core Lean only.
 -/
 import SshuttleModel.Props.C11
+import SshuttleModel.Lemmas.DgramExpire
 
 namespace Sshuttle.Dgram
 
@@ -61,8 +63,61 @@ theorem C11_alloc_twice_distinct (cfg : Cfg) (lsn lsn2 : Nat) (src src2 : Addr) 
       exact lookup_mem (lookup_set_self _ _ _))
   exact fun e => this e.symm
 
+/-- Every id in the DNS table is occupied by a DNS callback. -/
+def DnsInChans (c : Client) : Prop :=
+  ∀ q ∈ c.dnsreqs, ∃ qid l a o, lookup q.1 c.chans = some (.dns qid l a o)
+
+/-- `udp_by_src` is a dict: one entry per source. -/
+def SrcUnique (c : Client) : Prop :=
+  ∀ p ∈ c.udpBySrc, ∀ q ∈ c.udpBySrc, p.1 = q.1 → p = q
+
+/-- **The sweep keeps the tables consistent**: an association that survives `expire_connections`
+still owns its id — the sweep deletes from `mux.channels` only the ids of expired DNS requests (which
+carry DNS callbacks, so none of them is a live UDP id) and of expired UDP associations (another
+source's id, because one id carries one source's callback). -/
+theorem C11_tables_in_chans_after_expire (now : Nat) (c c' : Client) (fr : List Frame)
+    (hinv : TablesInChans c) (hdns : DnsInChans c) (hu : SrcUnique c)
+    (h : expire now c = .ok (c', fr)) : TablesInChans c' := by
+  unfold expire at h
+  simp only at h
+  split at h
+  · cases h
+  · next ch1 h1 =>
+    split at h
+    · cases h
+    · next ch2 h2 =>
+      simp only [Except.ok.injEq, Prod.mk.injEq] at h
+      obtain ⟨hc, _⟩ := h
+      subst hc
+      intro p hp
+      simp only [List.mem_filter, decide_not, Bool.not_eq_eq_eq_not, Bool.not_true,
+        decide_eq_false_iff_not] at hp
+      obtain ⟨hp, hlive⟩ := hp
+      obtain ⟨l, hl⟩ := hinv p hp
+      refine ⟨l, ?_⟩
+      simp only
+      rw [delChans_eq_filter h2, delChans_eq_filter h1]
+      apply lookup_filter
+      · apply lookup_filter _ hl
+        simp only [decide_eq_true_eq, List.mem_map, List.mem_filter, not_exists, not_and]
+        intro q ⟨hq, _⟩ e
+        obtain ⟨qid, l', a, o, hq'⟩ := hdns q hq
+        rw [e, hl] at hq'
+        cases hq'
+      · simp only [decide_eq_true_eq, List.mem_map, List.mem_filter, not_exists, not_and]
+        intro q ⟨hq, hexp⟩ e
+        obtain ⟨l', hq'⟩ := hinv q hq
+        rw [e, hl] at hq'
+        simp only [Option.some.injEq, Cb.udp.injEq] at hq'
+        have := hu p hp q hq hq'.2
+        subst this
+        exact hlive hexp
+
 /-- Non-vacuity: the empty client satisfies the invariant and an allocation succeeds on it. -/
-example : TablesInChans ({} : Client) := by
-  intro p hp; cases hp
+example : TablesInChans ({} : Client) ∧ DnsInChans ({} : Client) ∧ SrcUnique ({} : Client) := by
+  refine ⟨?_, ?_, ?_⟩
+  · intro p hp; cases hp
+  · intro q hq; cases hq
+  · intro p hp; cases hp
 
 end Sshuttle.Dgram
